@@ -74,6 +74,17 @@ def features(text: str) -> Set[str]:
                     feats.add("selector-ignores-element")
                     break
                 cur = cur.func.value
+            # ... or through a flattening step: X.SelectMany(lambda j: <seq>.Select(lambda t: j.q())).Sum() - the element-ignoring
+            # projection is the tail of the SelectMany lambda's body
+            if isinstance(cur, ast.Call) and isinstance(cur.func, ast.Attribute) and cur.func.attr == "SelectMany" and cur.args and isinstance(cur.args[0], ast.Lambda):
+                lam = cur.args[0]
+                b2 = bound | {a.arg for a in lam.args.args}
+                inner = lam.body
+                while isinstance(inner, ast.Call) and isinstance(inner.func, ast.Attribute) and inner.func.attr in ("Select", "Where"):
+                    if ignoring_select(inner, b2):
+                        feats.add("selector-ignores-element")
+                        break
+                    inner = inner.func.value
         if isinstance(node, ast.Lambda):
             b2 = bound | {a.arg for a in node.args.args}
             walk(node.body, b2)
